@@ -192,6 +192,20 @@ CLAIMED["C11"] = {
     "technique": "TLC model checking of the walk loop + replay of all generated walks on walk.Generic + trace validation of real walker callbacks against a reflection tree",
 }
 
+CLAIMED["C04"] = {
+    "level": "model_checking",
+    "text": ("PgLex.tla is a model of PostgreSQL's lexical structure (strings with '' under standard_conforming_strings, E'' escapes, quoted identifiers, -- and nested /* */ comments, "
+             "dollar quoting, parameters, operators incl. the backtick) together with an M-spec of what DAWGS does with user text (quote doubling, LIKE escaping, SQL fragments quoted "
+             "again as text arguments, identifiers written verbatim).  TLC checks over every payload up to the bound that literal, LIKE and fragment quoting always lex to one string "
+             "token that decodes to the payload (and falsifies the same claim for verbatim identifiers).  Every payload TLC enumerates is then placed in 41 user-text positions of "
+             "real queries; the real translator's SQL for the hostile and the benign twin is compared by the harness character-wise around the value, and PgLexTrace.tla lexes the "
+             "value's stretch (for fragments: the text argument, decoded, lexed again) and requires one token of the benign kind that decodes to the payload."),
+    "design_ref": "DESIGN.md 4/C04",
+    "note": ("Payload length is bounded (<= 2 characters in the quick tier into the real translator, 3 thorough, plus a few long classics); kind names never reach the SQL (kind ids); "
+             "values that travel as bound parameters are checked to stay out of the SQL.  Two known findings: user aliases / variable names are written verbatim with their backticks."),
+    "technique": "TLC check of the quoting mechanisms over all bounded payloads + TLC-enumerated payloads injected into the real translator, emitted SQL validated by a TLA+ model of PostgreSQL's lexer",
+}
+
 CLAIMED["C05"] = {
     "level": "exploration",
     "text": ("Totality, determinism and purity of one function over all models, parameter maps and interleavings is sampled, not decided: TransTrace.tla is a per-call history "
@@ -246,5 +260,5 @@ CLAIMED["C08"] = {
 _NB = "not built yet in this round (design in DESIGN.md section 4)"
 NOT_APPLICABLE = {
     "C01": "needs the emitted SQL executed on PostgreSQL; no SQL engine exists in this sandbox and a TLA+ model of PostgreSQL would verify the model, not DAWGS (DESIGN.md section 5)",
-    "C02": _NB, "C03": _NB, "C04": _NB, 
+    "C02": _NB, "C03": _NB, 
 }
